@@ -45,3 +45,9 @@ Definition combine_u64 (a b : Z) : Q := inject_Z (combine_bits a b) / inject_Z (
 Definition as_signed64 (c : Z) : Z := if Z.ltb c (two64 / 2) then c else (c - two64)%Z.
 Definition combine_i64 (a b : Z) : Q := inject_Z (as_signed64 (combine_bits a b)) / inject_Z (two64 - 1).
 Definition er_edge (u p : Q) : bool := Qle_bool u p.
+
+(* ---- the same count-down in binary64, as DynamicNetwork.end_pairs really performs it: dur = dur - dt on every step, kept while dur > 0 *)
+From Coq Require Import PrimFloat.
+Fixpoint float_countdown (n : nat) (dur dt : float) : float :=
+  match n with O => dur | S k => float_countdown k (PrimFloat.sub dur dt) dt end.
+Definition float_edge_kept (n : nat) (dur dt : float) : bool := PrimFloat.ltb PrimFloat.zero (float_countdown n dur dt).
